@@ -5,6 +5,8 @@
     packBits keeps (a rounding carry out of the field decodes as a different number)
  T3 (E-RANGE) the common-exponent delta (exponent - min_exp), with exponents of normal doubles in [-1022, 1023], fits the byte it
     is stored in, or is guarded by a range test
+ T5 (E-DOM)   the base exponent subtracted in that delta is only ever taken from elements that pass the same flag-array test that
+    guards the delta store (scan set = stored set); other shapes of the scan (select form, helper) are not judged
 Not decided: bit-exactness of FULL mode, the special-value escape, the error bound itself."""
 import os
 from ..report import Run, Finding, rel
@@ -171,6 +173,46 @@ def analyse(mod, run, label):
                 if c.op == "icmp" and c.ops[1]["k"] == "int" and int(c.ops[1]["sv"]) <= 255 and c.ops[0]["k"] == "inst" and enc.imap[c.ops[0]["v"]].op == "sub": guarded = True
         run.check(guarded, "T3-exponent-delta-fits-byte", {"at": loc(i)},
                   Finding("T3-exponent-delta-truncated", "varintFloatEncode", "exp-delta", "trunc", "the exponent delta at %s ranges over [0, %d] for normal doubles but is stored in one byte without a range test: arrays mixing magnitudes more than 2^255 apart decode to different values" % (loc(i), rng[1]), loc=loc(i)))
+        # ---- T5: the base exponent is scanned over the same elements whose deltas are stored ----
+        def root_of(o, depth=0):
+            while o["k"] == "inst" and depth < 8:
+                j = enc.imap[o["v"]]
+                if j.op in ("getelementptr", "bitcast"): o = j.ops[0]; depth += 1
+                else: break
+            return o.get("v") if o["k"] == "inst" else None
+        def flag_root(o, depth=0):          # the array a branch condition tests one element of against zero, or None
+            if o["k"] != "inst" or depth > 6: return None
+            j = enc.imap[o["v"]]
+            if j.op == "icmp" and j.ops[1]["k"] == "int" and int(j.ops[1]["sv"]) == 0: return flag_root(j.ops[0], depth + 1)
+            if j.op in ("trunc", "zext", "sext") or (j.op == "and" and j.ops[1]["k"] == "int"): return flag_root(j.ops[0], depth + 1)
+            if j.op == "load" and j.ops[0]["k"] == "inst" and enc.imap[j.ops[0]["v"]].op == "getelementptr": return root_of(j.ops[0])
+            return None
+        def flag_tests_above(bid):
+            out = set()
+            for d in enc.dom_chain(bid):
+                blk = enc.bmap[d]
+                if len(blk.preds) != 1: continue
+                t = blk.preds[0].term
+                if t.op == "br" and len(t.ops) == 3:
+                    r = flag_root(t.ops[0])
+                    if r is not None: out.add(r)
+            return out
+        store_flags = flag_tests_above(i.block.id)
+        leaves = []; opaque = False; seen = set(); work = [s.ops[1]]
+        while work:
+            o = work.pop()
+            if o["k"] == "int": continue
+            if o["k"] != "inst": opaque = True; continue
+            if o["v"] in seen: continue
+            seen.add(o["v"]); j = enc.imap[o["v"]]
+            if j.op in ("sext", "zext"): work.append(j.ops[0])
+            elif j.op == "phi": work.extend(x["v"] for x in j["incoming"])
+            elif j.op == "load" and j["t"] == "i16" and j.ops[0]["k"] == "inst" and enc.imap[j.ops[0]["v"]].op == "getelementptr": leaves.append(j)
+            else: opaque = True
+        if store_flags and leaves and not opaque:
+            bad = [l for l in leaves if not (flag_tests_above(l.block.id) & store_flags)]
+            run.check(not bad, "T5-base-scanned-over-stored-elements", {"delta_store": loc(i), "base_candidates": [loc(l) for l in leaves], "flag_array_tests": len(store_flags)},
+                      Finding("T5-base-exponent-scan-set-differs", "varintFloatEncode", "exp-base", "scan", "the delta store at %s is only reached for elements whose flag byte tests zero, but the base exponent it subtracts is also taken from an element at %s without that test: a flagged element's placeholder exponent becomes the base and the one-byte deltas of the stored elements no longer describe their exponents" % (loc(i), loc(bad[0]) if bad else "?"), loc=loc(bad[0]) if bad else loc(i)))
     if n3 < 1: raise AnalysisBroken("varintFloatEncode: common-exponent delta store not found")
     # ---- T4: varintFloatCompose assembles a value for every exponent of a normal double ----
     comp = need_fn(mod, "varintFloatCompose")
